@@ -131,7 +131,7 @@ def run(ctx, rep):
     BQ = "chartparse.sync.BPMEvent.ParsedData"
     info = check_from_chart_line(ctx, rtl, BQ)
     if info is not None:
-        check_line_recogniser(ctx, BQ, info, rtl, rtl, rtl, only={"canon", "capture", "groups"})
+        check_line_recogniser(ctx, BQ, info, rtl, rtl, rtl, only={"canon", "capture", "groups", "upper"})
     rres = rep.rule("R.resolution-field", "the resolution the validators see is the integer written on the [Song] Resolution line: the "
                                           "field's converter is int and its recogniser captures digits only (no default, clamp or "
                                           "fallback between the file and the positive-resolution guard)", floor=3)
